@@ -29,6 +29,7 @@ fn boolarg(s: &str) -> Option<bool> {
 }
 
 fn len_err(e: &LenError) -> String {
+    crate::util::touch(e);
     format!(
         "len(req={},len={},src={:?},layer={:?},off={})",
         e.required_len, e.len, e.len_source, e.layer, e.layer_start_offset
@@ -69,6 +70,7 @@ fn ipv6_fields(h: &Ipv6Header) -> String {
 }
 
 fn ipv6_err(e: &err::ipv6::HeaderSliceError) -> String {
+    crate::util::touch(e);
     use err::ipv6::{HeaderError::*, HeaderSliceError::*};
     match e {
         Len(l) => format!("err({})", len_err(l)),
@@ -320,6 +322,7 @@ fn ipv4_fields(h: &Ipv4Header) -> String {
 }
 
 fn ipv4_err(e: &err::ipv4::HeaderSliceError) -> String {
+    crate::util::touch(e);
     use err::ipv4::{HeaderError::*, HeaderSliceError::*};
     match e {
         Len(l) => format!("err({})", len_err(l)),
@@ -382,7 +385,26 @@ fn ipv4_value(a: &[&str]) -> Option<Result<Ipv4Header, String>> {
 fn ipv4_dec(b: &[u8]) -> String {
     match Ipv4Header::from_slice(b) {
         Err(e) => ipv4_err(&e),
-        Ok((h, rest)) => format!("ok({},rest={})", ipv4_fields(&h), win(b, rest)),
+        Ok((h, rest)) => {
+            let mut d = h.clone();
+            if h.options.is_empty() {
+                d.time_to_live ^= 1;
+            } else {
+                let n = d.options.len();
+                AsMut::<[u8]>::as_mut(&mut d.options)[n - 1] ^= 1;
+            }
+            let o = &h.options;
+            let bad = eq_laws_bad(&h, Some(d))
+                || eq_laws_bad(o, None)
+                || o.cmp(&o.clone()) != core::cmp::Ordering::Equal
+                || o.partial_cmp(&o.clone()) != Some(core::cmp::Ordering::Equal)
+                || usize::from(o.len_u8()) != o.len()
+                || AsRef::<[u8]>::as_ref(o) != o.as_slice()
+                || core::borrow::Borrow::<[u8]>::borrow(o) != o.as_slice()
+                || &o[..] != o.as_slice()
+                || o.as_slice() != &b[20..20 + o.len()];
+            format!("ok({},rest={}){}", ipv4_fields(&h), win(b, rest), if bad { "!accessor-mismatch" } else { "" })
+        }
     }
 }
 
@@ -495,6 +517,7 @@ fn auth_fields(h: &IpAuthHeader) -> String {
 }
 
 fn auth_err(e: &err::ip_auth::HeaderSliceError) -> String {
+    crate::util::touch(e);
     use err::ip_auth::{HeaderError::*, HeaderSliceError::*};
     match e {
         Len(l) => format!("err({})", len_err(l)),
@@ -520,7 +543,18 @@ fn auth_value(a: &[&str]) -> Option<Result<IpAuthHeader, String>> {
 fn auth_dec(b: &[u8]) -> String {
     match IpAuthHeader::from_slice(b) {
         Err(e) => auth_err(&e),
-        Ok((h, rest)) => format!("ok({},rest={})", auth_fields(&h), win(b, rest)),
+        Ok((h, rest)) => {
+            let mut d = h.clone();
+            if h.raw_icv().is_empty() {
+                d.spi ^= 1;
+            } else {
+                let mut icv = h.raw_icv().to_vec();
+                let n = icv.len();
+                icv[n - 1] ^= 1;
+                let _ = d.set_raw_icv(&icv);
+            }
+            format!("ok({},rest={}){}", auth_fields(&h), win(b, rest), if eq_only_bad(&h, Some(d)) { "!accessor-mismatch" } else { "" })
+        }
     }
 }
 
@@ -619,7 +653,14 @@ fn rawext_value(a: &[&str]) -> Option<Result<Ipv6RawExtHeader, String>> {
 fn rawext_dec(b: &[u8]) -> String {
     match Ipv6RawExtHeader::from_slice(b) {
         Err(e) => format!("err({})", len_err(&e)),
-        Ok((h, rest)) => format!("ok({},rest={})", rawext_fields(&h), win(b, rest)),
+        Ok((h, rest)) => {
+            let mut d = h.clone();
+            let mut pl = h.payload().to_vec();
+            let n = pl.len();
+            pl[n - 1] ^= 1;
+            let _ = d.set_payload(&pl);
+            format!("ok({},rest={}){}", rawext_fields(&h), win(b, rest), if eq_only_bad(&h, Some(d)) { "!accessor-mismatch" } else { "" })
+        }
     }
 }
 
@@ -704,6 +745,7 @@ fn exts_fields(e: &Ipv4Extensions) -> String {
 }
 
 fn exts_walk_err(e: &err::ipv4_exts::ExtsWalkError) -> String {
+    crate::util::touch(e);
     match e {
         err::ipv4_exts::ExtsWalkError::ExtNotReferenced { missing_ext } => {
             format!("err(notreferenced({}))", missing_ext.0)
